@@ -4,6 +4,10 @@
 //   reset x <n> <k>    C++: item slots 0..n-1 (not constructed), lists n..n+k-1 constructed
 //   reset s <n>        slist: n slist_head nodes, next = self
 //   reset h <n> <k>    hlist: nodes 0..n-1, heads n..n+k-1
+//   reset r <n>        C dlist: ONE ring 0,1,..,n-1 built with dlist_add_prev(i, 0) (n may exceed the
+//                      1000-step limit of dlist_is_correct); cpoke_next/cpoke_prev then corrupt links by hand
+//   reset t <n> <k>    objects 0..n-1 with TWO dlist_head members (la at offset 24, lb at offset 56),
+//                      bare heads n..n+k-1 (even index: lists of la nodes, odd index: lists of lb nodes)
 // Result of every op: "<value> | <dump of every node's link fields as ids>".
 #include "common/hv.h"
 #include <igris/datastruct/dlist.h>
@@ -82,6 +86,34 @@ static std::string cptr(struct dlist_head *p)
 }
 static bool ckey_less(CItem *a, CItem *b) { return a->key < b->key; }
 
+// ------------------------------------------------------------------ objects on two lists at once
+struct TObj { char pad0[24]; struct dlist_head la; int key; char pad1[12]; struct dlist_head lb; };
+static std::vector<TObj *> tobj;
+static std::vector<struct dlist_head *> thead;
+static bool tkey_less(TObj *a, TObj *b) { return a->key < b->key; }
+// reference ids: member m of object i -> 2i+m, head j -> 2n+j
+static struct dlist_head *tnode(int rid)
+{
+    int n = (int)tobj.size();
+    if (rid >= 2 * n) return thead[rid - 2 * n];
+    return rid % 2 ? &tobj[rid / 2]->lb : &tobj[rid / 2]->la;
+}
+static int trid(struct dlist_head *p)
+{
+    for (size_t i = 0; i < tobj.size(); i++) { if (p == &tobj[i]->la) return 2 * (int)i; if (p == &tobj[i]->lb) return 2 * (int)i + 1; }
+    for (size_t j = 0; j < thead.size(); j++) if (p == thead[j]) return 2 * (int)tobj.size() + (int)j;
+    return -1;
+}
+static std::string ttok(struct dlist_head *p)
+{
+    if (p == DLIST_POISON1) return "P1";
+    if (p == DLIST_POISON2) return "P2";
+    int r = trid(p), n = (int)tobj.size();
+    if (r < 0) return "?";
+    if (r >= 2 * n) return std::to_string(n + r - 2 * n);
+    return std::to_string(r / 2) + (r % 2 ? "b" : "a");
+}
+
 // ------------------------------------------------------------------ C++ dlist
 struct XItem { int key; igris::dlist_node lnk; };
 typedef igris::dlist<XItem, &XItem::lnk> XList;
@@ -112,7 +144,9 @@ static std::string sptr(struct slist_head *p)
 typedef igris::slist<SItem, &SItem::lnk> SList;
 
 // ------------------------------------------------------------------ hlist
-static std::vector<struct hlist_node *> hn;
+struct HItem { int key; struct hlist_node lnk; };
+static std::vector<HItem *> hitem;
+static std::vector<struct hlist_node *> hn;   // hn[i] = &hitem[i]->lnk
 static std::vector<struct hlist_head *> hh;
 static std::string hnid(struct hlist_node *p)
 {
@@ -130,6 +164,7 @@ static std::string hloc(struct hlist_node **pp)
 
 // ------------------------------------------------------------------ state
 static char kind = 0;
+static bool corrupt = false;   // links were poked by hand: only the bounded walks are judged
 static Ref ref;
 static std::map<int, std::vector<int>> hlists; // hlist reference: head id -> node ids
 
@@ -137,14 +172,17 @@ static void free_all()
 {
     for (auto p : cn) free(p);
     cn.clear();
+    for (auto p : tobj) free(p);
+    for (auto p : thead) free(p);
+    tobj.clear(); thead.clear();
     for (auto &p : xl) { if (p) { while (!p->empty()) p->pop_front(); delete p; } p = nullptr; }
     for (auto &p : xn) { delete p; p = nullptr; }
     xl.clear(); xn.clear();
     for (auto p : sn) free(p);
     sn.clear();
-    for (auto p : hn) free(p);
+    for (auto p : hitem) free(p);
     for (auto p : hh) free(p);
-    hn.clear(); hh.clear();
+    hn.clear(); hh.clear(); hitem.clear();
     ref = Ref();
     hlists.clear();
 }
@@ -153,8 +191,19 @@ static std::string dump()
 {
     std::string s;
     if (kind == 'c')
+    {
+        if (cn.size() > 16) return s;
         for (size_t i = 0; i < cn.size(); i++)
             s += (i ? " " : "") + std::to_string(i) + ":" + cptr(cn[i]->lnk.next) + "/" + cptr(cn[i]->lnk.prev);
+    }
+    else if (kind == 't')
+    {
+        for (size_t i = 0; i < tobj.size(); i++)
+            s += (i ? " " : "") + std::to_string(i) + ":a=" + ttok(tobj[i]->la.next) + "/" + ttok(tobj[i]->la.prev) +
+                 ",b=" + ttok(tobj[i]->lb.next) + "/" + ttok(tobj[i]->lb.prev);
+        for (size_t j = 0; j < thead.size(); j++)
+            s += " " + std::to_string(tobj.size() + j) + ":" + ttok(thead[j]->next) + "/" + ttok(thead[j]->prev);
+    }
     else if (kind == 'x')
         for (int i = 0; i < xnitems + (int)xl.size(); i++)
         {
@@ -208,6 +257,69 @@ static void oracle_c(out &o)
                 if (ref.in_ring((int)j) && (cn[j]->lnk.next == &cn[i]->lnk || cn[j]->lnk.prev == &cn[i]->lnk))
                     return o.fail("removed node " + std::to_string(i) + " still reachable from " + std::to_string(j));
 }
+// bounded walks on a ring that may be corrupted: judged by cycle detection on the id graph
+// (first return time of `start` under the successor map, -1 when it does not return within `count` steps)
+static int first_return(const std::vector<int> &succ, int start, int count)
+{
+    std::vector<int> seen(succ.size(), -1);
+    int it = start, k = 0;
+    while (true)
+    {
+        it = succ[it];
+        if (it == start) return k < count ? k : -1;
+        if (seen[it] >= 0) return -1; // entered a cycle that does not contain start
+        seen[it] = k++;
+        if (k > (int)succ.size() + 1) return -1;
+    }
+}
+static void c_succ(std::vector<int> &nx, std::vector<int> &pv)
+{
+    std::map<struct dlist_head *, int> id;
+    for (size_t i = 0; i < cn.size(); i++) id[&cn[i]->lnk] = (int)i;
+    nx.resize(cn.size()); pv.resize(cn.size());
+    for (size_t i = 0; i < cn.size(); i++) { nx[i] = id[cn[i]->lnk.next]; pv[i] = id[cn[i]->lnk.prev]; }
+}
+static void oracle_walks(out &o, const std::string &op, int a, int b, const std::string &val)
+{
+    std::vector<int> nx, pv;
+    c_succ(nx, pv);
+    if (op == "ccheck") { if (atoi(val.c_str()) != first_return(nx, a, b)) o.fail("dlist_check != first return time of the forward walk"); }
+    else if (op == "ccheck_rev") { if (atoi(val.c_str()) != first_return(pv, a, b)) o.fail("dlist_check_reversed != first return time of the backward walk"); }
+    else if (op == "ccorrect")
+    {
+        int f = first_return(nx, a, 1000), r = first_return(pv, a, 1000);
+        bool want = f >= 0 && r >= 0 && f == r;
+        if ((val == "1") != want) o.fail("dlist_is_correct != (both walks return within 1000 steps after the same number of steps)");
+        if (f < 0) o.tag("correct-fwd-fails"); else if (r < 0) o.tag("correct-bwd-fails"); else if (f != r) o.tag("correct-lengths-differ");
+    }
+}
+// two-member objects: every ring of the reference, read from every member
+static void oracle_t(out &o)
+{
+    for (auto &ring : ref.rings)
+        for (int hd : ring)
+        {
+            std::vector<int> want = ref.list(hd), fw, bw;
+            struct dlist_head *head = tnode(hd), *it;
+            int guard = 0;
+            dlist_for_each(it, head) { fw.push_back(trid(it)); if (++guard > 10000) break; }
+            guard = 0;
+            dlist_for_each_reverse(it, head) { bw.push_back(trid(it)); if (++guard > 10000) break; }
+            std::reverse(bw.begin(), bw.end());
+            if (fw != want) return o.fail("two-member objects: forward traversal from " + ttok(head) + " disagrees with the reference");
+            if (bw != want) return o.fail("two-member objects: backward traversal from " + ttok(head) + " disagrees with the reference");
+            if (head->next->prev != head || head->prev->next != head) return o.fail("neighbours of " + ttok(head) + " do not point back");
+        }
+}
+static std::vector<std::pair<struct dlist_head *, struct dlist_head *>> t_snapshot(int m)
+{
+    // link fields of every node that belongs to the lists of member m
+    std::vector<std::pair<struct dlist_head *, struct dlist_head *>> v;
+    for (auto p : tobj) { struct dlist_head *n = m ? &p->lb : &p->la; v.push_back({n->next, n->prev}); }
+    for (size_t j = 0; j < thead.size(); j++) if ((int)(j % 2) == m) v.push_back({thead[j]->next, thead[j]->prev});
+    return v;
+}
+
 static void oracle_x(out &o)
 {
     for (auto &ring : ref.rings)
@@ -285,8 +397,37 @@ static void run_op(const std::vector<std::string> &w, const std::string &, out &
     {
         free_all();
         kind = w[1][0];
+        corrupt = false;
         int n = A(2);
-        if (kind == 'c')
+        if (kind == 'r')
+        {
+            kind = 'c';
+            for (int i = 0; i < n; i++)
+            {
+                CItem *p = (CItem *)malloc(sizeof(CItem));
+                p->key = i;
+                dlist_init(&p->lnk);
+                cn.push_back(p);
+                if (i) dlist_add_prev(&p->lnk, &cn[0]->lnk);
+            }
+            std::vector<int> all;
+            for (int i = 0; i < n; i++) all.push_back(i);
+            ref.rings.push_back(all);
+            if (n > 1000) o.tag("ring-over-limit");
+        }
+        else if (kind == 't')
+        {
+            for (int i = 0; i < n; i++)
+            {
+                TObj *p = (TObj *)malloc(sizeof(TObj));
+                p->key = i;
+                dlist_init(&p->la); dlist_init(&p->lb);
+                tobj.push_back(p);
+            }
+            for (int j = 0; j < A(3); j++) { auto *p = (struct dlist_head *)malloc(sizeof(struct dlist_head)); dlist_init(p); thead.push_back(p); }
+            for (int i = 0; i < 2 * n + A(3); i++) ref.single(i);
+        }
+        else if (kind == 'c')
             for (int i = 0; i < n; i++)
             {
                 CItem *p = (CItem *)malloc(sizeof(CItem));
@@ -312,7 +453,7 @@ static void run_op(const std::vector<std::string> &w, const std::string &, out &
             }
         else if (kind == 'h')
         {
-            for (int i = 0; i < n; i++) { auto *p = (struct hlist_node *)malloc(sizeof(struct hlist_node)); p->next = 0; p->pprev = 0; hn.push_back(p); }
+            for (int i = 0; i < n; i++) { auto *p = (HItem *)malloc(sizeof(HItem)); p->key = i; p->lnk.next = 0; p->lnk.pprev = 0; hitem.push_back(p); hn.push_back(&p->lnk); }
             for (int i = 0; i < A(3); i++) { auto *p = (struct hlist_head *)malloc(sizeof(struct hlist_head)); p->first = 0; hh.push_back(p); hlists[n + i] = {}; }
         }
     }
@@ -356,8 +497,160 @@ static void run_op(const std::vector<std::string> &w, const std::string &, out &
         else if (op == "ccheck_rev") val = std::to_string(dlist_check_reversed(pa, b));
         else if (op == "clist") { std::vector<int> v; struct dlist_head *it; dlist_for_each(it, pa) v.push_back(cid(it)); val = ids(v); }
         else if (op == "clist_rev") { std::vector<int> v; struct dlist_head *it; dlist_for_each_reverse(it, pa) v.push_back(cid(it)); val = ids(v); }
+        else if (op == "ccorrect_strict")
+        {
+            // probe of finding C01-is-correct-length-only: "correct" should imply that neighbours point back
+            val = dlist_is_correct(pa) ? "1" : "0";
+            std::vector<int> nx, pv; c_succ(nx, pv);
+            bool wf = true;
+            for (size_t i = 0; i < nx.size(); i++) if (pv[nx[i]] != (int)i || nx[pv[i]] != (int)i) wf = false;
+            if (val == "1" && !wf) o.fail("dlist_is_correct accepts a ring whose neighbours do not point back");
+        }
+        else if (op == "cpoke_next") { pa->next = pb; corrupt = true; o.tag("corrupt"); }
+        else if (op == "cpoke_prev") { pa->prev = pb; corrupt = true; o.tag("corrupt"); }
         else val = "bad-op";
-        oracle_c(o);
+        if (op == "ccorrect_strict") {}
+        else if (corrupt || cn.size() > 16) oracle_walks(o, op, a, b, val);
+        else oracle_c(o);
+    }
+    // ---------------- objects with two link members
+    else if (op == "toffsets")
+        val = std::to_string(member_offsetof(TObj, la)) + " " + std::to_string(member_offsetof(TObj, lb)) + " " + std::to_string(sizeof(TObj));
+    else if (kind == 't')
+    {
+        int n = (int)tobj.size();
+        auto H = [&](int id) { return thead[id - n]; };
+        auto hrid = [&](int id) { return 2 * n + (id - n); };
+        auto keys_of = [&](const std::vector<int> &rids) { std::vector<int> v; for (int r : rids) v.push_back(r / 2); return v; };
+        if (op == "tsafe")
+        {
+            bool raw = w[1] == "raw";
+            int m = w[raw ? 2 : 1] == "b", hd = A(raw ? 3 : 2), p = A(raw ? 4 : 3), q = A(raw ? 5 : 4);
+            int mode = raw ? 0 : A(5), tgt = raw ? 0 : A(6);
+            auto before = t_snapshot(1 - m);
+            std::vector<int> want = keys_of(ref.list(hrid(hd))), visited;
+            int guard = 0;
+            if (raw)
+            {
+                struct dlist_head *pos, *nn;
+                dlist_for_each_safe(pos, nn, H(hd))
+                {
+                    TObj *e = m ? dlist_entry(pos, TObj, lb) : dlist_entry(pos, TObj, la);
+                    visited.push_back(e->key);
+                    if (e->key % p == q) dlist_del_init(pos);
+                    if (++guard > 10000) break;
+                }
+            }
+            else
+            {
+                TObj *pos, *nn;
+#define T_BODY(MEM)                                                                          \
+    dlist_for_each_entry_safe(pos, nn, H(hd), MEM)                                           \
+    {                                                                                        \
+        visited.push_back(pos->key);                                                         \
+        if (pos->key % p == q)                                                               \
+        {                                                                                    \
+            if (mode == 0) dlist_del_init(&pos->MEM);                                        \
+            else if (mode == 1) dlist_del(&pos->MEM);                                        \
+            else dlist_move_tail(&pos->MEM, H(tgt));                                         \
+        }                                                                                    \
+        if (++guard > 10000) break;                                                          \
+    }
+                if (m) { T_BODY(lb) } else { T_BODY(la) }
+#undef T_BODY
+            }
+            for (int k : want)
+                if (k % p == q)
+                {
+                    if (mode == 0) ref.single(2 * k + m);
+                    else if (mode == 1) ref.remove(2 * k + m);
+                    else ref.ins_before(2 * k + m, hrid(tgt));
+                    o.tag("delete-during-traversal");
+                }
+            val = ids(visited);
+            if (visited != want) o.fail("safe traversal with deletion of the current element did not visit every element exactly once in order");
+            if (before != t_snapshot(1 - m)) o.fail("an operation on the lists of one member changed link fields of the other member");
+        }
+        else
+        {
+            const std::string &ms = w[1];
+            int m = ms == "b", a = A(2), b = w.size() > 3 ? A(3) : 0;
+            auto before = t_snapshot(ms == "h" ? 2 : 1 - m);
+            auto N = [&](int obj) { return m ? &tobj[obj]->lb : &tobj[obj]->la; };
+            auto key_or_end = [&](TObj *e) {
+                struct dlist_head *node = m ? &e->lb : &e->la;
+                int r = trid(node);
+                return r >= 2 * n ? "end" + std::to_string(n + r - 2 * n) : std::to_string(e->key);
+            };
+            if (op == "tinit")
+            {
+                if (ms == "h") { dlist_init(H(a)); ref.single(hrid(a)); }
+                else { dlist_init(N(a)); ref.single(2 * a + m); }
+            }
+            else if (op == "tadd") { dlist_add_next(N(a), H(b)); ref.ins_after(2 * a + m, hrid(b)); o.tag("insert"); }
+            else if (op == "tadd_tail") { dlist_add_tail(N(a), H(b)); ref.ins_before(2 * a + m, hrid(b)); o.tag("insert"); }
+            else if (op == "tdel") { dlist_del_init(N(a)); ref.single(2 * a + m); o.tag("remove"); }
+            else if (op == "tdelp") { dlist_del(N(a)); ref.remove(2 * a + m); o.tag("remove"); }
+            else if (op == "tmove" || op == "tmove_tail" || op == "tmove_to" || op == "tmove_tail_to")
+            {
+                bool to = op == "tmove_to" || op == "tmove_tail_to", tail = op == "tmove_tail" || op == "tmove_tail_to";
+                struct dlist_head *target = to ? N(b) : H(b);
+                int rt = to ? 2 * b + m : hrid(b), rs = 2 * a + m;
+                if (rs == rt) o.tag("move-self");
+                else if (N(a)->next == target || N(a)->prev == target) o.tag("move-adjacent");
+                if (ref.find(rs) != ref.find(rt)) o.tag("move-between-lists");
+                if (ref.ring_size(rs) == 2) o.tag("move-last-element");
+                if (tail) dlist_move_tail(N(a), target); else dlist_move(N(a), target);
+                if (rs == rt) ref.single(rs); else if (tail) ref.ins_before(rs, rt); else ref.ins_after(rs, rt);
+            }
+            else if (op == "tsorted")
+            {
+                TObj *added = tobj[a];
+                if (m) { dlist_move_sorted(added, H(b), lb, tkey_less); } else { dlist_move_sorted(added, H(b), la, tkey_less); }
+                int pos = hrid(b);
+                for (int x : ref.list(hrid(b))) if (a < x / 2) { pos = x; break; }
+                ref.ins_before(2 * a + m, pos);
+                o.tag("sorted-insert");
+            }
+            else if (op == "tentries" || op == "tentries_rev")
+            {
+                std::vector<int> v, want = keys_of(ref.list(hrid(a)));
+                TObj *pos; int guard = 0;
+                if (op == "tentries") { if (m) { dlist_for_each_entry(pos, H(a), lb) { v.push_back(pos->key); if (++guard > 10000) break; } } else { dlist_for_each_entry(pos, H(a), la) { v.push_back(pos->key); if (++guard > 10000) break; } } }
+                else
+                {
+                    if (m) { dlist_for_each_entry_reverse(pos, H(a), lb) { v.push_back(pos->key); if (++guard > 10000) break; } } else { dlist_for_each_entry_reverse(pos, H(a), la) { v.push_back(pos->key); if (++guard > 10000) break; } }
+                    std::reverse(want.begin(), want.end());
+                }
+                val = ids(v);
+                if (v != want) o.fail("dlist_for_each_entry(_reverse) through a member that is not first disagrees with the reference");
+            }
+            else if (op == "tfirst" || op == "tlast")
+            {
+                TObj *e = op == "tfirst" ? (m ? dlist_first_entry(H(a), TObj, lb) : dlist_first_entry(H(a), TObj, la))
+                                         : (m ? dlist_last_entry(H(a), TObj, lb) : dlist_last_entry(H(a), TObj, la));
+                val = key_or_end(e);
+                auto l = ref.list(hrid(a));
+                std::string want = l.empty() ? "end" + std::to_string(a) : std::to_string((op == "tfirst" ? l.front() : l.back()) / 2);
+                if (val != want) o.fail("dlist_first_entry/last_entry disagrees with the reference");
+            }
+            else if (op == "tnext" || op == "tprev")
+            {
+                TObj *e = tobj[a];
+                TObj *r = op == "tnext" ? (m ? dlist_next_entry(e, lb) : dlist_next_entry(e, la)) : (m ? dlist_prev_entry(e, lb) : dlist_prev_entry(e, la));
+                val = key_or_end(r);
+                auto v = ref.from(2 * a + m);
+                int nb = op == "tnext" ? v[1 % v.size()] : v.back();
+                std::string want = nb >= 2 * n ? "end" + std::to_string(n + nb - 2 * n) : std::to_string(nb / 2);
+                if (val != want) o.fail("dlist_next_entry/prev_entry disagrees with the reference");
+                // container_of o member = id: the object recovered from either member is the object itself
+                if (dlist_entry(&e->la, TObj, la) != e || dlist_entry(&e->lb, TObj, lb) != e) o.fail("mcast_out(mcast_in(obj)) != obj");
+            }
+            else if (op == "tsize") val = std::to_string(dlist_size(H(a)));
+            else val = "bad-op";
+            if (ms != "h" && before != t_snapshot(1 - m)) o.fail("an operation on the lists of one member changed link fields of the other member");
+        }
+        oracle_t(o);
     }
     // ---------------- C++ dlist
     else if (kind == 'x')
@@ -413,6 +706,82 @@ static void run_op(const std::vector<std::string> &w, const std::string &, out &
                 ref.rings[r].insert(ref.rings[r].end(), src.begin(), src.end());
             }
         }
+        else if (op == "xpop") { if (!ref.multi(b)) o.tag("unlink-unlinked"); xl[a - xnitems]->pop(*xn[b]); ref.single(b); o.tag("typed-pop"); }
+        else if (op == "xerase_if")
+        {
+            int p = A(2), q = A(3);
+            XList *l = xl[a - xnitems];
+            std::vector<int> want = ref.list(a), visited;
+            for (auto it = l->begin(); it != l->end();)
+            {
+                auto cur = it++;
+                visited.push_back(cur->key);
+                if (cur->key % p == q) { l->pop(*cur); o.tag("erase-while-iterating"); }
+            }
+            for (int k : want) if (k % p == q) ref.single(k);
+            val = ids(visited);
+            if (visited != want) o.fail("erase-while-iterating did not visit every element exactly once in order");
+        }
+        else if (op == "xround_left")
+        {
+            auto v = ref.list(a);
+            if (v.empty()) o.tag("round-empty"); else { ref.ins_before(v.front(), a); o.tag("round-left"); }
+            xl[a - xnitems]->round_left();
+        }
+        else if (op == "xwalk")
+        {
+            XList *l = xl[a - xnitems];
+            const XList *cl = l;
+            std::vector<int> want = ref.list(a), f1, f2, f3, b1, b2, b3;
+            for (auto it = l->begin(); it != l->end(); ++it) f1.push_back(it->key);
+            for (auto it = l->begin(); it != l->end(); it++) f2.push_back((*it).key);
+            for (auto it = cl->begin(); it != cl->end(); ++it) f3.push_back(it->key);
+            for (auto it = l->end(); it != l->begin();) { --it; b1.push_back(it->key); }
+            for (auto it = l->rbegin(); it != l->rend(); it++) b2.push_back((*it).key);
+            { auto it = l->rend(); while (it != l->rbegin()) { it--; b3.push_back(it->key); } } // reverse_iterator--: forward order
+            val = ids(f1) + "/" + ids(b1);
+            std::vector<int> rw = want; std::reverse(rw.begin(), rw.end());
+            if (f1 != want || f2 != want || f3 != want || b3 != want || b1 != rw || b2 != rw) o.fail("iterator ++/--/post-increment/const/reverse traversals disagree with the reference");
+            // ++ then -- comes back to the same iterator
+            for (auto it = l->begin(); it != l->end(); ++it) { auto j = it; ++j; --j; if (j != it) o.fail("++ then -- does not return to the same iterator"); }
+            o.tag("iterators");
+        }
+        else if (op == "xfront" || op == "xback")
+        {
+            XList *l = xl[a - xnitems];
+            auto v = ref.list(a);
+            int want = op == "xfront" ? v.front() : v.back();
+            int k1 = op == "xfront" ? l->front().key : l->back().key;
+            int k2 = op == "xfront" ? l->first_entry<XItem, &XItem::lnk>().key : l->last_entry<XItem, &XItem::lnk>().key;
+            int k3 = op == "xfront" ? l->first().key : xptr(l->last_node()) == std::to_string(want) ? want : -1;
+            val = std::to_string(k1);
+            if (k1 != want || k2 != want || k3 != want) o.fail("front/back/first/first_entry/last_entry disagree with the reference");
+            if (&xn[want]->lnk.cast_out<XItem, &XItem::lnk>() != xn[want]) o.fail("cast_out(member) != object");
+        }
+        else if (op == "xmove_next_obj" || op == "xmove_prev_obj" || op == "xmove_next_it" || op == "xmove_prev_it")
+        {
+            XList *l = xl[a - xnitems];
+            int node = A(2), target;
+            bool after = op == "xmove_next_obj" || op == "xmove_next_it";
+            if (op == "xmove_next_obj" || op == "xmove_prev_obj")
+            {
+                target = A(3);
+                if (after) l->move_next(*xn[node], *xn[target]); else l->move_prev(*xn[node], *xn[target]);
+            }
+            else
+            {
+                auto v = ref.list(a);
+                int k = A(3);
+                target = k < (int)v.size() ? v[k] : a;
+                XList::iterator it = l->begin();
+                for (int i = 0; i < k; i++) ++it;
+                if (it == l->end()) o.tag("move-to-end-iterator");
+                if (after) l->move_next(*xn[node], it); else l->move_prev(*xn[node], it);
+            }
+            if (node == target) o.tag("move-self");
+            if (node == target) ref.single(node); else if (after) ref.ins_after(node, target); else ref.ins_before(node, target);
+            o.tag("typed-move");
+        }
         else if (op == "xsize") val = std::to_string(xl[a - xnitems]->size());
         else if (op == "xempty") val = xl[a - xnitems]->empty() ? "1" : "0";
         else if (op == "xlinked") val = xnode(a)->is_linked() ? "1" : "0";
@@ -445,6 +814,24 @@ static void run_op(const std::vector<std::string> &w, const std::string &, out &
             if (ref.find(a) == ref.find(b)) o.tag("move-linked");
             lst->move_front(*sn[a]);
             ref.ins_after(a, b);
+        }
+        else if (op == "sxadd")
+        {
+            SList *lst = reinterpret_cast<SList *>(&sn[b]->lnk);
+            lst->add_first(*sn[a]); ref.ins_after(a, b); o.tag("insert");
+        }
+        else if (op == "sxiter")
+        {
+            SList *lst = reinterpret_cast<SList *>(&sn[a]->lnk);
+            const SList *clst = lst;
+            std::vector<int> v1, v2, v3, v4, want = ref.list(a);
+            for (auto it = lst->begin(); it != lst->end(); ++it) v1.push_back(it->key);
+            for (auto it = lst->begin(); it != lst->end(); it++) v2.push_back((*it).key);
+            for (auto it = clst->begin(); it != clst->end(); ++it) v3.push_back(it->key);
+            for (auto it = clst->begin(); it != clst->end(); it++) v4.push_back((*it).key);
+            val = ids(v1);
+            if (v1 != want || v2 != want || v3 != want || v4 != want) o.fail("igris::slist iterators disagree with the reference");
+            if (lst->empty() != want.empty()) o.fail("igris::slist::empty disagrees");
         }
         else if (op == "ssize") val = std::to_string(slist_size(&sn[a]->lnk));
         else if (op == "sin") val = slist_in(&sn[a]->lnk, &sn[b]->lnk) ? "1" : "0";
@@ -483,6 +870,14 @@ static void run_op(const std::vector<std::string> &w, const std::string &, out &
                 if (it != kv.second.end()) { kv.second.erase(it); was = true; break; }
             }
             o.tag(was ? "remove" : "del-unlinked");
+        }
+        else if (op == "hentries")
+        {
+            // entry iteration through a member at offset 8: terminates on `&pos->member != 0`
+            std::vector<int> v; HItem *pos; int guard = 0;
+            hlist_for_each_entry(pos, hh[a - hn.size()], lnk) { v.push_back(pos->key); if (++guard > 10000) break; }
+            val = ids(v);
+            if (v != hlists[a]) o.fail("hlist_for_each_entry disagrees with the reference");
         }
         else if (op == "hlist") { std::vector<int> v; struct hlist_node *p; hlist_for_each(p, hh[a - hn.size()]) v.push_back(atoi(hnid(p).c_str())); val = ids(v); }
         else val = "bad-op";
@@ -637,6 +1032,44 @@ static void gen_x_case(rng &r, int n, int k, int nops)
                 g.ref.rings[ri].insert(g.ref.rings[ri].end(), src.begin(), src.end());
             }
         }
+        else if (c < 90)
+        {
+            // typed wrapper: pop(obj), erase-while-iterating, iterator walks, front/back, move_next/prev(obj, obj|iterator)
+            int a = live_list(); if (a < 0) continue;
+            auto v = g.ref.list(a);
+            bool all_items = true;
+            for (int x : v) if (x >= n) all_items = false;
+            int sel = (int)r.below(7);
+            if (sel == 6) { emit("xround_left " + std::to_string(a)); if (!v.empty()) g.ref.ins_before(v.front(), a); }
+            else if (sel == 0) { int b = live_item(); if (b < 0) continue; emit("xpop " + std::to_string(a) + " " + std::to_string(b)); g.ref.single(b); }
+            else if (!all_items) continue;
+            else if (sel == 1)
+            {
+                int p = (int)r.range(1, 3), qq = (int)r.below(p);
+                emit("xerase_if " + std::to_string(a) + " " + std::to_string(p) + " " + std::to_string(qq));
+                for (int x : v) if (x % p == qq) g.ref.single(x);
+            }
+            else if (sel == 2) emit("xwalk " + std::to_string(a));
+            else if (sel == 3) { if (v.empty()) continue; emit(std::string(r.chance(50) ? "xfront " : "xback ") + std::to_string(a)); }
+            else if (sel == 4)
+            {
+                int x = live_item(), y = live_item();
+                if (x < 0 || y < 0) continue;
+                if (r.chance(30) && g.ref.multi(x)) { auto f = g.ref.from(x); int cand = r.chance(50) ? f[1] : f.back(); if (cand < n) y = cand; }
+                bool after = r.chance(50);
+                emit(std::string(after ? "xmove_next_obj " : "xmove_prev_obj ") + std::to_string(a) + " " + std::to_string(x) + " " + std::to_string(y));
+                if (x == y) g.ref.single(x); else if (after) g.ref.ins_after(x, y); else g.ref.ins_before(x, y);
+            }
+            else
+            {
+                int x = live_item(); if (x < 0) continue;
+                int kpos = (int)r.range(0, (int)v.size());
+                int target = kpos < (int)v.size() ? v[kpos] : a;
+                bool after = r.chance(50);
+                emit(std::string(after ? "xmove_next_it " : "xmove_prev_it ") + std::to_string(a) + " " + std::to_string(x) + " " + std::to_string(kpos));
+                if (x == target) g.ref.single(x); else if (after) g.ref.ins_after(x, target); else g.ref.ins_before(x, target);
+            }
+        }
         else
         {
             int a = live_list(); if (a < 0) continue;
@@ -661,11 +1094,20 @@ static void gen_s_case(rng &r, int n, int nops)
     {
         int c = (int)r.below(100);
         int head = (int)r.below(2);
-        if (c < 40)
+        if (c < 6)
+        {
+            // slist_init of a node that is in no list (popped: stale next) or alone
+            int a = 2 + (int)r.below(n - 2);
+            if (g.ref.multi(a)) continue;
+            emit("sinit " + std::to_string(a));
+            stale.erase(a);
+            g.ref.single(a);
+        }
+        else if (c < 40)
         {
             int a = 2 + (int)r.below(n - 2);
             if (g.ref.multi(a)) continue;
-            emit("sadd " + std::to_string(a) + " " + std::to_string(head));
+            emit(std::string(r.chance(30) ? "sxadd " : "sadd ") + std::to_string(a) + " " + std::to_string(head));
             stale.erase(a);
             g.ref.ins_after(a, head);
         }
@@ -686,8 +1128,9 @@ static void gen_s_case(rng &r, int n, int nops)
         }
         else
         {
-            int qi = (int)r.below(3);
-            if (qi == 0) emit("ssize " + std::to_string(head));
+            int qi = (int)r.below(4);
+            if (qi == 3) emit("sxiter " + std::to_string(head));
+            else if (qi == 0) emit("ssize " + std::to_string(head));
             else if (qi == 1) emit("slist " + std::to_string(head));
             else emit("sin " + std::to_string(head) + " " + std::to_string(2 + (int)r.below(n - 2)));
         }
@@ -699,11 +1142,17 @@ static void gen_h_case(rng &r, int n, int k, int nops)
     emit("reset h " + std::to_string(n) + " " + std::to_string(k));
     std::map<int, std::vector<int>> L;
     std::set<int> linked;
-    for (int i = 0; i < k; i++) L[n + i] = {};
+    for (int i = 0; i < k; i++) { L[n + i] = {}; emit("hhead_init " + std::to_string(n + i)); }
     for (int q = 0; q < nops; q++)
     {
         int c = (int)r.below(100);
-        if (c < 50)
+        if (c < 4)
+        {
+            // re-initialising an empty head changes nothing
+            int h = n + (int)r.below(k);
+            if (L[h].empty()) emit("hhead_init " + std::to_string(h));
+        }
+        else if (c < 50)
         {
             int a = (int)r.below(n);
             if (linked.count(a)) continue;
@@ -735,7 +1184,150 @@ static void gen_h_case(rng &r, int n, int k, int nops)
             else if (r.chance(30)) emit("hdel " + std::to_string(a)); // pprev == 0: must be a no-op
             (void)never;
         }
-        else emit("hlist " + std::to_string(n + (int)r.below(k)));
+        else emit(std::string(r.chance(50) ? "hentries " : "hlist ") + std::to_string(n + (int)r.below(k)));
+    }
+}
+
+// hand-corrupted rings and rings longer than the limit: only the bounded walks are asked
+static void gen_corrupt_cases(rng &r, int cases)
+{
+    auto S = [](long v) { return std::to_string(v); };
+    // rings around the 1000-step limit of dlist_is_correct (1000 nodes = head + 999 elements is the last accepted one)
+    for (int n : {999, 1000, 1001, 1002, 1500})
+    {
+        emit("reset r " + S(n));
+        emit("ccorrect 0"); emit("ccheck 0 1000"); emit("ccheck_rev 0 1000"); emit("ccheck 0 2000"); emit("ccheck_rev 7 " + S(n)); emit("ccheck 3 " + S(n - 1));
+    }
+    // forward walk fine, backward walk never returns (lasso): second failure branch of dlist_is_correct
+    emit("reset r 12"); emit("cpoke_prev 5 5"); emit("ccorrect 0"); emit("ccheck_rev 0 1000"); emit("ccheck 0 1000");
+    // forward walk never returns: first failure branch
+    emit("reset r 12"); emit("cpoke_next 7 7"); emit("ccorrect 0"); emit("ccheck 0 1000"); emit("ccheck_rev 0 1000");
+    // both return, different lengths (backward links skip a node)
+    emit("reset r 6"); emit("cpoke_prev 0 4"); emit("ccorrect 0"); emit("ccheck 0 10"); emit("ccheck_rev 0 10");
+    for (int i = 0; i < cases; i++)
+    {
+        int n = (int)r.range(2, 8);
+        emit("reset r " + S(n));
+        int pokes = (int)r.range(1, 4);
+        for (int k = 0; k < pokes; k++)
+        {
+            int a = (int)r.below(n), b = (int)r.below(n);
+            int mode = (int)r.below(4);
+            if (mode == 0) b = a;                                   // self loop
+            emit(std::string(r.chance(50) ? "cpoke_next " : "cpoke_prev ") + S(a) + " " + S(b));
+        }
+        if (r.chance(25))
+            for (int a = 0; a < n; a++) emit("cpoke_prev " + S(a) + " " + S((a + 1) % n)); // backward links = forward links
+        for (int k = 0; k < 8; k++)
+        {
+            int a = (int)r.below(n), q = (int)r.below(3);
+            if (q == 0) emit("ccorrect " + S(a));
+            else emit(std::string(q == 1 ? "ccheck " : "ccheck_rev ") + S(a) + " " + S(r.range(0, n + 2)));
+        }
+    }
+}
+
+// objects with two link members, each object on (up to) two lists at once
+static void gen_t_case(rng &r, int n, int nops)
+{
+    auto S = [](long v) { return std::to_string(v); };
+    const int k = 4;
+    emit("reset t " + S(n) + " " + S(k));
+    emit("toffsets");
+    Ref ref;
+    for (int i = 0; i < 2 * n + k; i++) ref.single(i);
+    std::set<int> poisoned;
+    auto hrid = [&](int id) { return 2 * n + (id - n); };
+    auto head_of = [&](int m) { return n + m + 2 * (int)r.below(2); }; // even heads: la lists, odd heads: lb lists
+    const char *ML = "ab";
+    for (int q = 0; q < nops; q++)
+    {
+        int c = (int)r.below(100), m = (int)r.below(2), a = (int)r.below(n), rid = 2 * a + m;
+        std::string ms(1, ML[m]);
+        if (c < 25)
+        {
+            if (ref.multi(rid)) continue;
+            int h = head_of(m);
+            bool tail = r.chance(50);
+            emit(std::string(tail ? "tadd_tail " : "tadd ") + ms + " " + S(a) + " " + S(h));
+            poisoned.erase(rid);
+            if (tail) ref.ins_before(rid, hrid(h)); else ref.ins_after(rid, hrid(h));
+        }
+        else if (c < 33) { if (poisoned.count(rid)) continue; emit("tdel " + ms + " " + S(a)); ref.single(rid); }
+        else if (c < 37) { if (poisoned.count(rid)) continue; emit("tdelp " + ms + " " + S(a)); ref.remove(rid); poisoned.insert(rid); }
+        else if (c < 40) { if (ref.multi(rid)) continue; emit("tinit " + ms + " " + S(a)); poisoned.erase(rid); ref.single(rid); }
+        else if (c < 55)
+        {
+            if (poisoned.count(rid)) continue;
+            int h = head_of(m);
+            // bias: the head the node is adjacent to
+            if (r.chance(40) && ref.multi(rid)) { auto f = ref.from(rid); int nb = r.chance(50) ? f[1] : f.back(); if (nb >= 2 * n) h = n + nb - 2 * n; }
+            bool tail = r.chance(50);
+            emit(std::string(tail ? "tmove_tail " : "tmove ") + ms + " " + S(a) + " " + S(h));
+            if (tail) ref.ins_before(rid, hrid(h)); else ref.ins_after(rid, hrid(h));
+        }
+        else if (c < 72)
+        {
+            if (poisoned.count(rid)) continue;
+            int b = (int)r.below(n);
+            int mode = (int)r.below(10);
+            if (mode == 0) b = a;
+            else if (mode <= 5 && ref.multi(rid)) { auto f = ref.from(rid); int nb = mode % 2 ? f[1] : f.back(); if (nb < 2 * n) b = nb / 2; }
+            int rt = 2 * b + m;
+            if (poisoned.count(rt)) continue;
+            bool tail = r.chance(50);
+            emit(std::string(tail ? "tmove_tail_to " : "tmove_to ") + ms + " " + S(a) + " " + S(b));
+            if (rid == rt) ref.single(rid); else if (tail) ref.ins_before(rid, rt); else ref.ins_after(rid, rt);
+        }
+        else if (c < 76)
+        {
+            if (ref.multi(rid) || poisoned.count(rid)) continue;
+            int h = head_of(m);
+            emit("tsorted " + ms + " " + S(a) + " " + S(h));
+            int pos = hrid(h);
+            for (int x : ref.list(hrid(h))) if (a < x / 2) { pos = x; break; }
+            ref.ins_before(rid, pos);
+        }
+        else if (c < 86)
+        {
+            int h = head_of(m);
+            auto v = ref.list(hrid(h));
+            bool ok = true;
+            for (int x : v) if (x >= 2 * n) ok = false; // only objects in the list
+            if (!ok) continue;
+            int p = (int)r.range(1, 3), qq = (int)r.below(p);
+            if (r.chance(30))
+            {
+                emit("tsafe raw " + ms + " " + S(h) + " " + S(p) + " " + S(qq));
+                for (int x : v) if ((x / 2) % p == qq) ref.single(x);
+            }
+            else
+            {
+                int mode = (int)r.below(3), tgt = n + m + 2 * (1 - (h - n - m) / 2);
+                emit("tsafe " + ms + " " + S(h) + " " + S(p) + " " + S(qq) + " " + S(mode) + " " + S(tgt));
+                for (int x : v)
+                    if ((x / 2) % p == qq)
+                    {
+                        if (mode == 0) ref.single(x);
+                        else if (mode == 1) { ref.remove(x); poisoned.insert(x); }
+                        else ref.ins_before(x, hrid(tgt));
+                    }
+            }
+        }
+        else
+        {
+            int h = head_of(m), qi = (int)r.below(7);
+            auto v = ref.list(hrid(h));
+            bool ok = true;
+            for (int x : v) if (x >= 2 * n) ok = false;
+            if (qi == 0 && ok) emit("tentries " + ms + " " + S(h));
+            else if (qi == 1 && ok) emit("tentries_rev " + ms + " " + S(h));
+            else if (qi == 2) emit("tfirst " + ms + " " + S(h));
+            else if (qi == 3) emit("tlast " + ms + " " + S(h));
+            else if (qi == 4) { if (!poisoned.count(rid)) emit("tnext " + ms + " " + S(a)); }
+            else if (qi == 5) { if (!poisoned.count(rid)) emit("tprev " + ms + " " + S(a)); }
+            else emit("tsize " + ms + " " + S(h));
+        }
     }
 }
 
@@ -797,6 +1389,12 @@ static void gen(rng &r, const std::string &tier)
     for (int i = 0; i < cases; i++) gen_x_case(r, (int)r.range(1, 10), (int)r.range(1, 3), th ? 200 : 120);
     for (int i = 0; i < cases / 2; i++) gen_s_case(r, (int)r.range(3, 9), 80);
     for (int i = 0; i < cases / 2; i++) gen_h_case(r, (int)r.range(1, 8), (int)r.range(1, 3), 80);
+    gen_corrupt_cases(r, th ? 300 : 60);
+    // probes of the two recorded findings (each is the last op of its case)
+    emit("reset r 4"); emit("cpoke_prev 0 1"); emit("cpoke_prev 1 2"); emit("cpoke_prev 2 3"); emit("cpoke_prev 3 0");
+    emit("@F:C01-is-correct-length-only ccorrect_strict 0");
+    emit("reset s 4"); emit("sadd 2 0"); emit("@F:C01-slist-move-front-foreign smove_front 2 1");
+    for (int i = 0; i < cases / 2; i++) gen_t_case(r, (int)r.range(1, 6), th ? 200 : 120);
 }
 
 int main(int argc, char **argv)
